@@ -231,7 +231,7 @@ func TestC11(t *testing.T) {
 	enum("enum-full", gen.FullAlphabet(), fullLen)
 	enum("enum-reduced", gen.ReducedAlphabet(), redLen)
 	enum("enum-bool", gen.BoolAlphabet(), focusLen+1)
-	enum("enum-unary", gen.UnaryAlphabet(), focusLen+1)
+	enum("enum-unary", gen.UnaryAlphabet(), focusLen+map[bool]int{false: 0, true: 1}[cfg.Thorough()])
 
 	// size sweep: the same shape at every size (limits, thresholds, off-by-one)
 	maxN := 150
